@@ -3,6 +3,8 @@ package roundtrace
 import (
 	"math/rand"
 
+	"verif/harness/rec"
+
 	"0chain.net/chaincore/block"
 	"0chain.net/chaincore/round"
 	"0chain.net/miner"
@@ -60,6 +62,11 @@ func (d *drv) truthSeed(r, toc int) int64 {
 
 // runTrace: one seeded random history of the environment around the node.
 func (d *drv) runTrace(id int, r *rand.Rand) {
+	if extra(d.a.Extra, "probe") == "forged" {
+		d.probeForged(id, r)
+		return
+	}
+	forged := extra(d.a.Extra, "forged") != ""
 	t := d.startTrace(id, r)
 	mc := d.mc
 	mode := r.Intn(10) // 0-5 mostly cooperative, 6-7 lossy (timeouts), 8-9 adversarial
@@ -219,6 +226,17 @@ func (d *drv) runTrace(id int, r *rand.Rand) {
 				add(2, func() { d.sendNotarization(1+r.Intn(nMiners-1), other, []int{1, 2, 3}, nil, false) })
 				add(2, func() { d.sendNotarization(1+r.Intn(nMiners-1), best, []int{1, 2}, nil, false) })
 				add(2, func() { d.sendNotarization(1+r.Intn(nMiners-1), best, []int{1, 2, 3}, map[int]bool{2: true}, false) })
+				// the next round's generator is already proposing on top of a block of this round
+				add(3+mode/2, func() { d.proposeNext(other, false) })
+				if forged {
+					add(3+mode/2, func() { d.proposeNext(other, true) })
+				}
+			}
+			for j := 1; j < nMiners; j++ {
+				j := j
+				if ranks[j] < 2 {
+					add(1+mode/4, func() { d.proposeBy(j, cur, seed, 9) }) // a proposal whose signature does not verify
+				}
 			}
 			// a ticket for a block the node has not got (yet)
 			if len(proposed) == 0 {
@@ -286,6 +304,55 @@ func (d *drv) proposeBy(gen, r int, seed int64, variant int) {
 	t.hist = append(t.hist, func() { d.sendBlock(x, true) })
 }
 
+// seedValue: the value of a seed path known to the harness (0 if unknown).
+func (t *trace) seedValue(p []int) int64 {
+	for v, q := range t.seeds {
+		if pathKey(q) == pathKey(p) {
+			return v
+		}
+	}
+	return 0
+}
+
+// proposeNext: a generator of the NEXT round proposes on top of x, a block of the node's current round that the
+// node has not seen notarized: with the simulated miners' genuine tickets for x attached (the node lags behind:
+// variant 8) or with forged ones (variant 7).
+func (d *drv) proposeNext(x *blk, forged bool) {
+	t := d.t
+	sv := t.seedValue(x.seed)
+	if sv == 0 || x.src == nil || !x.src.IsStateComputed() {
+		return
+	}
+	next := d.refSeedAt(x.r+1, 0, sv)
+	ranks := d.ranksOf(next)
+	gen := -1
+	for j := 1; j < nMiners; j++ {
+		if ranks[j] < 2 && (gen < 0 || ranks[j] < ranks[gen]) {
+			gen = j
+		}
+	}
+	if gen < 0 {
+		return
+	}
+	variant := 8
+	if forged {
+		variant = 7
+	}
+	for _, n := range t.order {
+		y := t.blocks[n]
+		if y.prev == x.name && y.variant == variant {
+			d.sendBlock(y, true)
+			return
+		}
+	}
+	if !forged {
+		d.envNotarize(x)
+	}
+	y := d.makeBlock(gen, x.r+1, next, x, variant)
+	d.sendBlock(y, false)
+	t.hist = append(t.hist, func() { d.sendBlock(y, true) })
+}
+
 // propose: a proposal of the best ranked simulated generator for (round, seed).
 func (d *drv) propose(r int, seed int64, variant int, dup bool) {
 	ranks := d.ranksOf(seed)
@@ -299,4 +366,51 @@ func (d *drv) propose(r int, seed int64, variant int, dup bool) {
 		return
 	}
 	d.proposeBy(best, r, seed, variant)
+}
+
+// probeForged (--extra probe=forged): the shortest history that shows what forged previous-block tickets attached
+// to a next-round proposal do to the node: round 1 gets its seed, the best ranked simulated generator proposes X,
+// the node verifies X and signs it (1 ticket of 3), the next round's generator sends Y on top of X with three
+// forged tickets for X attached; then a notarization message for X that carries only forged tickets.
+func (d *drv) probeForged(id int, r *rand.Rand) {
+	t := d.startTrace(id, r)
+	all := func() {
+		for len(t.pend) > 0 {
+			d.dispatch(0)
+		}
+	}
+	ps := d.prevSeed(1)
+	for _, j := range []int{1, 2} {
+		d.sendShare(j, 1, 0, ps, "ok", false)
+		all()
+	}
+	mr := d.nodeRound(1)
+	if mr == nil || !mr.HasRandomSeed() {
+		rec.Fatal("probe: round 1 has no seed")
+	}
+	seed := mr.GetRandomSeed()
+	ranks := d.ranksOf(seed)
+	var x *blk
+	if ranks[0] < 2 {
+		// the node is a generator itself: its own proposal is X
+		for _, pb := range mr.GetProposedBlocks() {
+			d.blockName(pb)
+			x = t.byHash[pb.Hash]
+		}
+	}
+	if x == nil {
+		d.propose(1, seed, 0, false)
+		all()
+		for _, pb := range mr.GetProposedBlocks() {
+			x = t.byHash[pb.Hash]
+		}
+	}
+	if x == nil {
+		rec.Fatal("probe: no proposal in round 1")
+	}
+	d.proposeNext(x, true)
+	all()
+	d.sendNotarization(2, x, []int{1, 2, 3}, map[int]bool{1: true, 2: true, 3: true}, false)
+	all()
+	d.endTrace()
 }
